@@ -271,6 +271,7 @@ func copyMap(m map[string]any) map[string]any {
 // ---- the check ------------------------------------------------------------------
 
 func checkCodec(c *core.Check, which string) {
+	var plans []*driver.ReadPlan
 	c.Assumptions = []string{
 		"values are compared by projection: nil and empty collections are identified, times are instants, floats by their shortest representation (DESIGN §11)",
 		"oneOf: only schemas with pairwise exclusive variants, and only values with exactly one variant set",
@@ -435,6 +436,12 @@ func checkCodec(c *core.Check, which string) {
 		}
 		// C08 through the server: every sixth object / array schema also is the request body of an operation
 		if which == "c08" {
+			if plans == nil {
+				// how a request body arrives: every behaviour of Stream.tla's source, in turn
+				if plans = streamPlans(c, true); plans == nil {
+					return
+				}
+			}
 			bg := driver.Group{Pkg: id, Kind: "pipeline", API: driver.APIConfig{}}
 			for k, si := range good[start:end] {
 				tn := fmt.Sprintf("T%d", si)
@@ -452,7 +459,7 @@ func checkCodec(c *core.Check, which string) {
 					cid := fmt.Sprintf("b%d", caseN)
 					bs, _ := json.Marshal(dc.doc)
 					bg.Cases = append(bg.Cases, driver.ReqCase{ID: cid, Method: "POST", Path: "/body/" + strings.ToLower(tn), Headers: map[string][]string{"Content-Type": {"application/json"}},
-						Body: string(bs), HasBody: true, Chunked: caseN%2 == 0, Script: driver.Script{Parse: true}})
+						Body: string(bs), HasBody: true, Chunked: caseN%2 == 0, Reads: plans[caseN%len(plans)], Script: driver.Script{Parse: true}})
 					metas[cid] = meta{typ: id + "/" + tn, sch: rs, doc: bs, mut: dc.mut, prop: dc.prop}
 				}
 			}
